@@ -89,6 +89,7 @@ class Interp(object):
         self.after_api = None  # called after every eliot API call that returned (C11 acknowledgements)
         self._stdlib = None
         self.tb_without_exception = False
+        self.late_calls = False
         self.strict_warnings = False
         self.cross_thread = False  # part of the action blocks are entered and run on another thread than the one that created the Action
         self.stdlib_tb = False  # part of the traceback nodes go through logging.Logger.error(exc_info=...) and eliot.stdlib.EliotHandler
@@ -614,6 +615,10 @@ class Interp(object):
                 with action.context():
                     self.probe(action, "inside context() of the finished action %s" % node["nid"])
             self.probe(cur, "after leaving %s of the finished action %s" % (kind, node["nid"]))
+        if self.late_calls and node["nid"] % 4 == 1:
+            # bookkeeping that arrives late (a completion callback, a finally block): fields for an action that has already ended are ignored
+            self.count("late add_success_fields")
+            self.api("add_success_fields after the action ended", action.add_success_fields, late_field=node["nid"])
         for i in range(node.get("extra_finish", 0)):
             self.count("extra_finish")
             if i % 2:
